@@ -46,7 +46,7 @@ def do_replay(prop_id, path):
     if rec.get('history_dependent'):
         acc = runner.Acc()
         for sh in (rec['shard'] if isinstance(rec['shard'], list) else [rec['shard']]):
-            acc.viol.extend(mod.run_shard(sh).viol)
+            acc.viol.extend(runner.run_shard_guarded(mod, sh).viol)
         res = [v for v in acc.viol if rec.get('varying') or
                (v['sub'] == rec['sub'] and runner.jsonable(v['case']) == rec['case'])][:3]
         print('(history-dependent violation: re-ran the whole shard %s)' % json.dumps(rec['shard']))
@@ -140,7 +140,7 @@ def main(argv):
             shard = json.loads(argv[argv.index('--replay-shard') + 1])
             viol = []
             for sh in (shard if isinstance(shard, list) else [shard]):
-                viol.extend(mod.run_shard(sh).viol)
+                viol.extend(runner.run_shard_guarded(mod, sh).viol)
             acc = runner.Acc()
             acc.viol = viol
             for v in acc.viol:
